@@ -237,10 +237,22 @@ def run(ctx):
                     ('permit(principal,action,resource) when { principal is User in Group::"g" && true };',
                      ['and', ['isIn', ['var', 'principal'], S('User'), lit(gen.vent('Group', 'g'))], lit(gen.vbool(True))]),
                     ('permit(principal,action,resource) when { "\\u{1F600}\\x41\\0\\\'" == "a" };', ['eq', lit(gen.vstr('\U0001f600A\0\'')), lit(gen.vstr('a'))]),
+                    # integer literals are DECIMAL digit strings: leading zeros are legal and mean nothing (no octal), with or without a sign, up to the int64 ends
+                    ('permit(principal,action,resource) when { 010 == 10 };', ['eq', lit(gen.vlong(10)), lit(gen.vlong(10))]),
+                    ('permit(principal,action,resource) when { 0777 + 08 + 09 + 00 == 0 };',
+                     ['eq', ['add', ['add', ['add', lit(gen.vlong(777)), lit(gen.vlong(8))], lit(gen.vlong(9))], lit(gen.vlong(0))], lit(gen.vlong(0))]),
+                    ('permit(principal,action,resource) when { -010 == 0 - 010 };', ['eq', lit(gen.vlong(-10)), ['sub', lit(gen.vlong(0)), lit(gen.vlong(10))]]),
+                    ('permit(principal,action,resource) when { 00000000009223372036854775807 == -00009223372036854775808 };',
+                     ['eq', lit(gen.vlong(gen.MAX64)), lit(gen.vlong(gen.MIN64))]),
+                    ('permit(principal,action,resource) when { 0x10 };', None), ('permit(principal,action,resource) when { 1_000 == 1 };', None),
+                    ('permit(principal,action,resource) when { 0b1 == 1 };', None), ('permit(principal,action,resource) when { 1e3 == 1 };', None),
                     ]:
         n += 1
         c = '(case t%d parse %s)' % (n, S(text))
         cases.append(c)
+        if e is None:
+            expect[lib.case_id(c)] = '(err)'
+            continue
         p = ['policy', S('p'), 'permit', ['all'], ['all'], ['all'], ['conds', ['when', e]], ['annots']]
         expect[lib.case_id(c)] = lib.canon_str(sx.dump(['ok', p]))
     nrej0 = len(cases)
